@@ -161,6 +161,10 @@ def systematic_inputs(ents, rng, auto, nperms, extra_defs=()):
                         add(eid, coregen.vmap(coregen.dedup(base + [(d["tag"], tv)])), src)
                         add(eid, coregen.vmap(coregen.dedup([(d["tag"], tv)] + base)), src)
                 add(eid, coregen.vmap(coregen.dedup(base)), "json")
+                # the tag absent while a member's key is a near miss of it / its camelCase / lower-case form
+                for near in (coregen.transposed(d["tag"]), coregen.camel(d["tag"]), d["tag"].lower(), d["tag"].upper(), d["tag"] + "s"):
+                    if near != d["tag"]:
+                        add(eid, coregen.vmap(coregen.dedup(base + [(near, coregen.vstr(coregen.G.unraw(v0["ident"])))])), "json")
                 for v in d["variants"]:
                     for tn in vforms(v):
                         for fm in forms[:4]:
@@ -220,6 +224,14 @@ def positional_inputs(ents, rng, extra_defs=()):
                     es.append(coregen.vmap([("q", coregen.vseq([coregen.vint(i)]))]) if b and et[0] not in ("jvalue", "phantom", "ref") else
                               (coregen.vseq([coregen.vmap([])]) if b else pg.gen(et, 0.0)))
                 out.append({"ty": eid, "val": coregen.vseq(es), "src": "ov" if n % 2 else "json", "grp": "start", "perm": False, "auto": auto, "perms": []})
+        if ty[0] in ("hset", "bset"):
+            # an element repeated before a faulty one, before a good one and after a faulty one: positions are payload positions,
+            # not positions in the set being built
+            g1, g2 = pg.gen(ty[1], 0.0), pg.gen(ty[1], 0.0)
+            bad = coregen.vseq([coregen.vmap([])]) if ty[1][0] in ("ref", "jvalue", "phantom") else coregen.vmap([("q", coregen.vseq([coregen.vint(0)]))])
+            for es in ([g1, g1, bad], [g1, g1, g2, bad, g2], [bad, g1, g1, bad], [g1, g1, g1]):
+                for src in ("ov", "json"):
+                    out.append({"ty": eid, "val": coregen.vseq(es), "src": src, "grp": "start", "perm": False, "auto": auto, "perms": []})
     return out
 
 
